@@ -6,17 +6,22 @@ sys.path.insert(0, os.path.dirname(os.path.abspath(__file__)))
 import mutest
 
 OUT = os.environ.get('REGRESS_OUT', '/verif/seeded/REGRESSION.json')
+# REGRESS_PART=i/n: only every n-th change starting at i (parallel development lanes)
 out = json.load(open(OUT)) if (len(sys.argv) > 1 and os.path.exists(OUT)) else {}
-ids = sorted(d for d in os.listdir("/verif/seeded") if os.path.exists("/verif/seeded/%s/meta.json" % d))
+SEEDED = os.path.join(mutest.VERIF, "seeded")
+ids = sorted(d for d in os.listdir(SEEDED) if os.path.exists(os.path.join(SEEDED, d, "meta.json")))
 only = sys.argv[1:]
+if os.environ.get("REGRESS_PART"):
+    pi, pn = (int(x) for x in os.environ["REGRESS_PART"].split("/"))
+    ids = [x for j, x in enumerate(ids) if j % pn == pi]
 for i in ids:
     if only and i not in only:
         continue
-    meta = json.load(open("/verif/seeded/%s/meta.json" % i))
+    meta = json.load(open(os.path.join(SEEDED, i, "meta.json")))
     pids = meta["breaks"].split()[:1]
     t = time.time()
     try:
-        r = mutest.detect("/verif/seeded/" + i, pids)
+        r = mutest.detect(os.path.join(SEEDED, i), pids)
     except AssertionError as e:
         r = {pids[0]: {"rc": -1, "lines": ["ERROR " + str(e)[:200]]}}
     res = r[pids[0]]
